@@ -13,6 +13,8 @@ structure Leaves (K : Bus → Bus → Prop) : Prop where
   gate : ∀ b s a p m, K b { b with pending := (checkPolicy b s a p m).1 }
   /-- a vanished connection's pending replies are forgotten -/
   forget : ∀ b c, K b { b with pending := b.pending.filter fun p => !involves c p }
+  /-- every pending reply times out -/
+  expire : ∀ b, K b { b with pending := [] }
   acquire : ∀ t c n flags, t.bus.isActive c = true → K t.bus (acquire t c n flags).1.bus
   release : ∀ t c n, K t.bus (release t c n).1.bus
   removeOwner : ∀ t n c, K t.bus (removeOwner t n c).bus
@@ -329,6 +331,11 @@ theorem lv_step (L : Leaves K) (tbl : List IfaceRow) (b : Bus) (ev : Ev) : K b (
     · exact L.refl _
     · exact lv_disconnect L b c
   | close c => exact lv_disconnect L b c
+  | timeout =>
+    simp only [Dbus.Model.Bus.step, expireAll]
+    exact L.trans _ _ _ (L.expire b)
+      (lv_foldl L (fun (t : Tx) (p : Pending) => sendError t p.caller (fakeCall p.serial) .noReply)
+        (fun t p => lv_sendError L t _ _ _) b.pending ({ bus := { b with pending := [] } } : Tx))
 
 /-- a state predicate kept by every leaf is an invariant of all reachable states -/
 def keeps (P : Bus → Prop) (b b' : Bus) : Prop := P b → P b'
